@@ -48,7 +48,7 @@ ENDINGS = endings()
 
 class World(object):
 
-    def __init__(self, cfg, late=False):
+    def __init__(self, cfg, late=False, prior_exc=False):
         '''
         late: the tasks were bound to their pilot by the client side scheduler
         (no `pilot` in the description): the client learns about them from
@@ -57,6 +57,7 @@ class World(object):
         the messages)
         '''
         self.late  = late
+        self.prior_exc = prior_exc   # non-final tasks carry earlier error info
         self.bound = {uid: pid for uid, (pid, _) in zip(UIDS, cfg)}
         net.install()
         self.net = net.Net().activate()
@@ -91,6 +92,10 @@ class World(object):
                 d['target_state'] = state
                 if state == rps.FAILED:
                     d['exception'] = 'RuntimeError("task failed")'
+            elif self.prior_exc and state != rps.NEW:
+                # e.g. a function task whose payload raised, on its way back
+                d['exception']        = 'ValueError("payload raised")'
+                d['exception_detail'] = 'traceback of the payload'
             if state == rps.NEW:
                 # no state change: binding set the way _update does it
                 if pid and not late:
@@ -156,10 +161,11 @@ class World(object):
                 for u, t in self.tasks.items()}
 
 
-def run_case(part, cfg, ending, late=False):
+def run_case(part, cfg, ending, late=False, prior_exc=False):
 
-    w = World(cfg, late)
-    replay = {'cfg': [list(c) for c in cfg], 'ending': ending, 'late': late}
+    w = World(cfg, late, prior_exc)
+    replay = {'cfg': [list(c) for c in cfg], 'ending': ending, 'late': late,
+              'prior_exc': prior_exc}
     if w.setup_exc is not None:
         part.violation('notification-raises|TaskManager._update_tasks|%s'
                        % type(w.setup_exc).__name__,
@@ -216,7 +222,9 @@ def run_case(part, cfg, ending, late=False):
                                             % (uid, pid, a_state, step)},
                                    replay)
                 elif pid not in '%s %s' % (a_exc, a_det):
-                    part.violation('explanation|_pilot_state_cb|%s' % kind,
+                    part.violation('explanation|_pilot_state_cb|%s%s'
+                                   % (kind, ':prior-error' if prior_exc
+                                      else ''),
                                    {'what': '%s failed without naming %s: '
                                             '%r / %r' % (uid, pid, a_exc, a_det)},
                                    replay)
@@ -258,6 +266,9 @@ def _job(idx):
             n += 1
             # the same with tasks bound by the client side scheduler, for the
             # configurations in which t3 is a fixed bystander
+            if cfg[2] == (None, rps.NEW):
+                run_case(part, cfg, ending, prior_exc=True)
+                n += 1
             if cfg[2] == (None, rps.NEW) and not any(
                     pid and st in (rps.NEW, rps.TMGR_SCHEDULING)
                     for pid, st in cfg):
@@ -387,6 +398,54 @@ def _race_job(args):
     return part.dump()
 
 
+def run_add_pilots(ctx):
+    '''
+    the death handler is attached by the real TaskManager.add_pilots(): every
+    way of adding two pilots (one call each / one call for both, both orders),
+    then each pilot ends through the real PilotManager notification path;
+    the tasks of the pilot which ended are failed, whichever position it had
+    '''
+    n = 0
+    for how in ('separate', 'bulk-p1p2', 'bulk-p2p1'):
+        for dead in ('p1', 'p2', 'both'):
+            for fin in rps.FINAL:
+                n += 1
+                cfg = (('p1', rps.AGENT_EXECUTING), ('p2', rps.AGENT_EXECUTING),
+                       (None, rps.NEW))
+                w = World(cfg)
+                order = {'separate' : [['p1'], ['p2']],
+                         'bulk-p1p2': [['p1', 'p2']],
+                         'bulk-p2p1': [['p2', 'p1']]}[how]
+                for bulk in order:
+                    w.tm.add_pilots([w.pilots[p] for p in bulk])
+                for pid in (('p1', 'p2') if dead == 'both' else (dead,)):
+                    w.pm._state_sub_cb(rpc.STATE_PUBSUB, seams.wire(
+                        {'cmd': 'update',
+                         'arg': [{'uid': pid, 'type': 'pilot',
+                                  'state': fin}]}))
+                replay = {'add_pilots': [how, dead, fin]}
+                for uid, pid in (('t1', 'p1'), ('t2', 'p2')):
+                    should = dead in (pid, 'both')
+                    st = w.tasks[uid].state
+                    if should and st != rps.FAILED:
+                        ctx.violation('own-task-not-failed|TaskManager.'
+                                      'add_pilots|%s:%s' % (how, pid),
+                                      {'what': 'pilots added %s; %s ended %s: '
+                                               '%s (on %s) is %s'
+                                               % (how, dead, fin, uid, pid,
+                                                  st)}, replay)
+                    if not should and st != rps.AGENT_EXECUTING:
+                        ctx.violation('bystander-changed|TaskManager.'
+                                      'add_pilots|%s:%s' % (how, pid),
+                                      {'what': 'pilots added %s; %s ended %s: '
+                                               '%s (on %s) is %s'
+                                               % (how, dead, fin, uid, pid,
+                                                  st)}, replay)
+                ctx.outcome(('add_pilots', how, dead, fin,
+                             w.tasks['t1'].state, w.tasks['t2'].state))
+    ctx.cover(evaluations=n, add_pilots_cases=n)
+
+
 def run_race(ctx, deep=True):
     # a DONE notification against the pilot's end needs two deviations (the
     # notification thread is stopped inside Task._update, the pilot-end
@@ -407,6 +466,7 @@ def run(ctx):
     global _cfgs
     ctx.level = 'model_checking'
     run_race(ctx)
+    run_add_pilots(ctx)
     per_task  = list(itertools.product(BINDINGS, TASK_STATES))
     if ctx.quick:
         # t3 ranges over a reduced set (one of each kind) in quick mode
@@ -447,7 +507,8 @@ def replay(ctx, data):
     cfg = [(c[0], c[1]) for c in cfg]
     ending = [tuple(tuple(x) if isinstance(x, list) else x for x in e)
               for e in r['ending']]
-    run_case(part, cfg, ending, late=bool(r.get('late')))
+    run_case(part, cfg, ending, late=bool(r.get('late')),
+             prior_exc=bool(r.get('prior_exc')))
     print('cfg', cfg, 'ending', ending, 'late', r.get('late'))
     for k, (d, _) in part.violations.items():
         print('VIOLATED', k, d['what'])
